@@ -11,5 +11,6 @@ mkdir -p bin .build evidence replays
 rm -rf lean/JsonV/Gen
 ./bin/translate "$REPO" lean/JsonV/Gen
 (cd lean && lake build)
-(cd harness && go1.26 build -tags verif -o ../bin/verifh .)
+sed "s#=> /repo#=> $REPO#" harness/go.mod > .build/go.harness.mod
+(cd harness && go1.26 build -modfile ../.build/go.harness.mod -tags verif -o ../bin/verifh .)
 echo "setup ok"
